@@ -61,6 +61,30 @@ class ObjRunner:
             raise AnalysisError(f"object model: {clsname}.{meth} not found")
         return self.run_function(f, obj, args, kw)
 
+    def module_env(self, rel):
+        """Constants visible in module rel: its own and those it imports from sibling modules (one object per runner)."""
+        if rel in self.module_state:
+            return self.module_state[rel]
+        import copy
+        env = {}
+        mod = self.prog.modules.get(rel)
+        if mod is not None:
+            base = rel.rsplit("/", 1)[0] + "/" if "/" in rel else ""
+            for st in mod.tree.body:
+                if isinstance(st, ast.ImportFrom) and st.level >= 1:
+                    src_dir = base
+                    for _ in range(st.level - 1):
+                        src_dir = src_dir.rstrip("/").rsplit("/", 1)[0] + "/" if "/" in src_dir.rstrip("/") else ""
+                    cand = f"{src_dir}{(st.module or '').replace('.', '/')}.py"
+                    if cand in self.prog.modules and cand != rel:
+                        consts = self.prog.module_constants(cand)
+                        for a in st.names:
+                            if a.name in consts:
+                                env[a.asname or a.name] = copy.deepcopy(consts[a.name])
+            env.update(copy.deepcopy(self.prog.module_constants(rel)))
+        self.module_state[rel] = env
+        return env
+
     def call_function(self, rel, name, *args, **kw):
         return self.run_function(self.prog.func(rel, name), None, args, kw, plain=True)
 
@@ -90,14 +114,10 @@ class ObjRunner:
                     j = i - (len(names) - len(defaults))
                     if j < 0:
                         raise AnalysisError(f"object model: missing argument {p!r} for {f.key}")
-                    env[p] = Interp({}).ev(defaults[j])
+                    env[p] = Interp(dict(self.module_env(f.module.rel))).ev(defaults[j])
             self.calls.append(f.key)
             # module-level constants of the callee's module: one object per runner, so state kept in them is shared between calls
-            rel = f.module.rel
-            if rel not in self.module_state:
-                import copy
-                self.module_state[rel] = copy.deepcopy(self.prog.module_constants(rel))
-            for k, v in self.module_state[rel].items():
+            for k, v in self.module_env(f.module.rel).items():
                 env.setdefault(k, v)
             it = Interp(env, call_hook=self.hook, loop_hook=self.loop)
             try:
@@ -161,6 +181,17 @@ class ObjRunner:
                     out = out or self.is_instance(args[0], cname)
             return out
         # regular expressions on model strings (the standard library's semantics, not repository code)
+        if isinstance(call.func, ast.Name) and name not in interp.env and hasattr(__import__("math"), name) and args \
+                and all(isinstance(a, (int, float)) for a in args) and self._from_math(call, name):
+            try:
+                return getattr(__import__("math"), name)(*args)
+            except (ValueError, OverflowError, ZeroDivisionError) as exc:
+                raise Flow("raise", f"{type(exc).__name__}({str(exc)!r})", call) from None
+        if name.startswith("math.") and hasattr(__import__("math"), name[5:]) and args and all(isinstance(a, (int, float)) for a in args):
+            try:
+                return getattr(__import__("math"), name[5:])(*args)
+            except (ValueError, OverflowError) as exc:
+                raise Flow("raise", f"{type(exc).__name__}({str(exc)!r})", call) from None
         if name in ("re.compile",) and args and isinstance(args[0], str):
             return {"__class__": "re.Pattern", "pattern": args[0], "flags": args[1] if len(args) > 1 else 0}
         if name in ("re.match", "re.fullmatch", "re.search") and len(args) >= 2 and all(isinstance(a, str) for a in args[:2]):
@@ -179,6 +210,11 @@ class ObjRunner:
                     return recv["__m__"].group(*args)
                 if attr == "groups":
                     return list(recv["__m__"].groups())
+            if isinstance(recv, list) and attr in ("index", "count", "copy", "sort", "reverse") and not any(isinstance(a, Unknown) for a in args):
+                try:
+                    return getattr(recv, attr)(*args, **kw)
+                except (ValueError, TypeError) as exc:
+                    raise Flow("raise", f"{type(exc).__name__}({str(exc)!r})", call) from None
             if isinstance(recv, str) and attr in ("isspace", "find", "replace", "isdigit", "split", "join", "rstrip", "lstrip", "count", "index", "format"):
                 return getattr(recv, attr)(*args)
             if isinstance(recv, dict) and "__class__" not in recv and attr in ("get", "keys", "values", "items", "setdefault", "pop", "update"):
@@ -203,6 +239,14 @@ class ObjRunner:
             if key in self.prog.funcs:
                 return self.run_function(self.prog.funcs[key], None, args, kw, plain=True)
         raise AnalysisError(f"object model: unsupported call {U(call)[:80]!r}")
+
+    @staticmethod
+    def _from_math(call, name):
+        mod = getattr(call, "_module", None)
+        if mod is None:
+            return False
+        return any(isinstance(st, ast.ImportFrom) and st.module == "math" and any((a.asname or a.name) == name for a in st.names)
+                   for st in mod.tree.body)
 
     def _callable(self, interp, node):
         """A function value handed to map/filter: bound regex method, lambda, repository function or None (identity test)."""
